@@ -938,7 +938,7 @@ def add_queries(P, ch, feat, n=1):
 # ------------------------------------------------------------------------------------------------
 # recursion-heavy workloads (used where the property is about the fixpoint loop itself: C09, C23, C03, C22 ...)
 
-def gen_recursive(ch, max_nodes=9, max_edges=18, npatterns=(1, 3), allow_neg=True, flag=False):
+def gen_recursive(ch, max_nodes=9, max_edges=18, npatterns=(1, 3), allow_neg=True, flag=False, ring=False):
     """random graph EDB + 1-3 recursive patterns (linear / non-linear transitive closure, bounded counters, mutual
     recursion, same-generation, reachability with a negated lower-stratum filter), each with small random variations.
     All strata need several iterations by construction."""
@@ -983,7 +983,7 @@ def gen_recursive(ch, max_nodes=9, max_edges=18, npatterns=(1, 3), allow_neg=Tru
         g = len(P.groups)
         binaries = [P.rels[x] for x in P.order if len(P.rels[x].types) == 2 and P.rels[x].group != g]
         base = ch.choice(binaries)   # an earlier binary relation (edge relation or an earlier closure)
-        kind = ch.weighted([(3, "tc"), (2, "tc2"), (2, "counter"), (2, "mutual"), (2, "sg"), (2, "reach")] + ([(2, "flag")] if flag else []))
+        kind = ch.weighted([(3, "tc"), (2, "tc2"), (2, "counter"), (2, "mutual"), (2, "sg"), (2, "reach")] + ([(2, "flag")] if flag else []) + ([(3, "ring")] if ring else []))
         if kind in ("tc", "tc2"):
             r = new_rel(2, g)
             P.groups.append([r.name])
@@ -1035,6 +1035,19 @@ def gen_recursive(ch, max_nodes=9, max_edges=18, npatterns=(1, 3), allow_neg=Tru
             rule = Rule(Atom(r.name, [X, Y]), [Atom(base.name, [A, X]), Atom(r.name, [A, B]), Atom(base.name, [B, Y])])
             rule.tags.add("rec")
             P.rules.append(rule)
+        elif kind == "ring":
+            # a dependency ring of 3-4 relations (a0 -> a1 -> .. -> a0): each relation is idle for several iterations between
+            # the rounds in which it grows
+            k = ch.int(3, 4)
+            rels = [new_rel(1, g) for _ in range(k)]
+            P.groups.append([r.name for r in rels])
+            P.rules.append(Rule(Atom(rels[0].name, [X]), [Atom("e1", [X])]))
+            for q in range(k):
+                src, dst = rels[q], rels[(q + 1) % k]
+                body = [Atom(src.name, [X]), Atom(base.name, [X, Y])] if (q == k - 1 or ch.bool(0.4)) else [Atom(src.name, [Y])]
+                rr = Rule(Atom(dst.name, [Y]), body)
+                rr.tags.add("rec")
+                P.rules.append(rr)
         elif kind == "flag":
             # reachability gated by a nullary relation of the same stratum that becomes true in some later iteration
             r = new_rel(1, g)
